@@ -172,24 +172,29 @@ class Flow:
             sc = self._nested_scopes[key]
         return sc
 
-    def const_key(self, e: ast.AST, sc: Scope) -> str | None:
+    def const_keys(self, e: ast.AST, sc: Scope) -> list[str] | None:
+        """the string constants a key expression can be: a literal, a parameter bound to one at the call site, or a
+        variable that runs over a literal table (``for key in ("A", "B")`` / ``for arg, key in (("a", "A"), ...)``,
+        loop or comprehension)."""
         if isinstance(e, ast.Constant) and isinstance(e.value, str):
-            return e.value
+            return [e.value]
         if isinstance(e, ast.Name) and e.id in sc.bind:
             arg, asc = sc.bind[e.id]
-            return self.const_key(arg, asc)
+            return self.const_keys(arg, asc)
+        if isinstance(e, ast.Name):
+            return table_values(e, sc.fn)
         return None
 
-    def environ_read(self, e: ast.AST, sc: Scope) -> tuple[str, list[ast.AST]] | None:
-        """``X[K]`` / ``X.get(K[, default])`` with K a WSGI text key -> (K, default exprs)."""
+    def environ_read(self, e: ast.AST, sc: Scope) -> tuple[list[str], list[ast.AST]] | None:
+        """``X[K]`` / ``X.get(K[, default])`` with K a WSGI text key (or a variable over a table of them) ->
+        (keys, default exprs)."""
+        k, dflt = None, []
         if isinstance(e, ast.Subscript) and not isinstance(e.slice, ast.Slice):
-            k = self.const_key(e.slice, sc)
-            if k is not None and _is_env_key(k):
-                return k, []
-        if isinstance(e, ast.Call) and isinstance(e.func, ast.Attribute) and e.func.attr == "get" and e.args:
-            k = self.const_key(e.args[0], sc)
-            if k is not None and _is_env_key(k):
-                return k, list(e.args[1:])
+            k = self.const_keys(e.slice, sc)
+        elif isinstance(e, ast.Call) and isinstance(e.func, ast.Attribute) and e.func.attr == "get" and e.args:
+            k, dflt = self.const_keys(e.args[0], sc), list(e.args[1:])
+        if k and all(_is_env_key(x) for x in k):
+            return list(dict.fromkeys(k)), dflt
         return None
 
     # -- backward evaluation ---------------------------------------------
@@ -210,6 +215,9 @@ class Flow:
             return self._lv(e.value, sc, seen)
         if isinstance(e, ast.BinOp) and isinstance(e.op, ast.Add):
             return self._lv(e.left, sc, seen) + self._lv(e.right, sc, seen)
+        if isinstance(e, ast.BinOp) and isinstance(e.op, ast.Mod) and (isinstance(e.left, ast.JoinedStr) or (isinstance(e.left, ast.Constant) and isinstance(e.left.value, (str, bytes)))):
+            # printf-style formatting: the template and the formatted values, like an f-string
+            return self._lv(e.left, sc, seen) + self._lv(e.right, sc, seen)
         if isinstance(e, ast.BoolOp):
             out = []
             for v in e.values:
@@ -224,10 +232,16 @@ class Flow:
             for v in e.elts:
                 out += self._lv(v, sc, seen)
             return out
+        if isinstance(e, ast.Dict):
+            # a mapping used as a holder of pieces: what can be read out of it are its values (`**other` included)
+            out = []
+            for v in e.values:
+                out += self._lv(v, sc, seen)
+            return out
         if isinstance(e, ast.Subscript):
             er = self.environ_read(e, sc)
             if er is not None:
-                return [Leaf("environ", e, (), er[0])]
+                return [Leaf("environ", e, (), k) for k in er[0]]
             tag = None
             if isinstance(e.slice, ast.Constant) and isinstance(e.slice.value, int):
                 src = e.value
@@ -262,7 +276,29 @@ class Flow:
                 arg, asc = sc.bind[e.id]
                 return self._lv(arg, asc, seen)
             return self._defs(e.id, frozenset(), e, sc, seen)
-        return self._defs(e.id, sc.rd.reaching(node, e.id), e, sc, seen)
+        defs = sc.rd.reaching(node, e.id)
+        return self._defs(e.id, defs, e, sc, seen) + self._grown(e.id, defs, node, sc, seen)
+
+    def _grown(self, name: str, defs: t.Iterable[Def], node: t.Any, sc: Scope, seen: frozenset[int]) -> list[Leaf]:
+        """what was put *into* the object bound to ``name`` after it was created: a list / set / dict / bytearray
+        that is grown in place (``L.append(x)``, ``L.extend(xs)``, ``L.insert(i, x)``, ``L[i] = x``, ``D[k] = x``,
+        ``D.update(k=x)``, ``D.setdefault(k, x)``, ``S.add(x)``) holds those values as much as the ones of its display.
+        A growth statement counts when it works on one of the bindings that reach the use and can run before it."""
+        defs = frozenset(defs)
+        if not defs:
+            return []
+        out: list[Leaf] = []
+        for st, vals in _growths(sc).get(name, ()):
+            if id(st) in seen:
+                continue
+            gn = sc.cfg.node_of(st)
+            if gn is None or not (sc.rd.reaching(gn, name) & defs):
+                continue
+            if gn is not node and node.id not in sc.cfg.reach(gn):
+                continue
+            for v in vals:
+                out += self._lv(v, sc, seen | {id(st)})
+        return out
 
     def _element(self, target: ast.AST, it: ast.AST, name: str, sc: Scope, seen: frozenset[int]) -> list[Leaf]:
         """origins of ``name`` when ``target`` is bound to the elements of the iterable ``it``
@@ -277,6 +313,14 @@ class Flow:
                     return [Leaf("other", it, (), "index")] if pos == 0 else self._lv(args[0], sc, seen)
                 if fq in ("builtins.zip", "itertools.zip_longest") and len(target.elts) == len(args):
                     return self._lv(args[pos], sc, seen)
+        if isinstance(target, (ast.Tuple, ast.List)) and isinstance(it, (ast.Tuple, ast.List)) and it.elts:
+            # a literal table of rows: the variable takes its own column only
+            pos = next((i for i, x in enumerate(target.elts) if isinstance(x, ast.Name) and x.id == name), None)
+            if pos is not None and all(isinstance(r, (ast.Tuple, ast.List)) and len(r.elts) == len(target.elts) and not any(isinstance(x, ast.Starred) for x in r.elts) for r in it.elts):
+                out: list[Leaf] = []
+                for r in it.elts:
+                    out += self._lv(r.elts[pos], sc, seen)  # type: ignore[attr-defined]
+                return out
         return self._lv(it, sc, seen)
 
     def _defs(self, name: str, defs: t.Iterable[Def], at: ast.AST, sc: Scope, seen: frozenset[int]) -> list[Leaf]:
@@ -329,10 +373,11 @@ class Flow:
                 out.append(Leaf("other", d.stmt if isinstance(d.stmt, ast.AST) else at, (), f"{name} bound by {d.kind}"))
         return out
 
-    def _codec_args(self, c: ast.Call) -> tuple[str | None, str | None, bool]:
-        """(codec, errors, foldable) of an .encode / .decode call."""
-        enc = c.args[0] if c.args else None
-        err = c.args[1] if len(c.args) > 1 else None
+    def _codec_args(self, c: ast.Call, skip: int = 0) -> tuple[str | None, str | None, bool]:
+        """(codec, errors, foldable) of an .encode / .decode call; ``skip`` = leading arguments that are not the
+        codec (``bytes(s, codec, errors)``, ``str(b, codec, errors)``, ``codecs.encode(s, codec, errors)``)."""
+        enc = c.args[skip] if len(c.args) > skip else None
+        err = c.args[skip + 1] if len(c.args) > skip + 1 else None
         for kw in c.keywords:
             if kw.arg == "encoding":
                 enc = kw.value
@@ -473,7 +518,7 @@ class Flow:
         f = e.func
         er = self.environ_read(e, sc)
         if er is not None:
-            out = [Leaf("environ", e, (), er[0])]
+            out = [Leaf("environ", e, (), k) for k in er[0]]
             for dflt in er[1]:
                 out += self._lv(dflt, sc, seen)
             return out
@@ -483,6 +528,11 @@ class Flow:
                 return self._lv(f.value, sc, seen)
             if m == "join" and len(e.args) == 1:
                 return self._lv(f.value, sc, seen) + self._lv(e.args[0], sc, seen)
+            if m == "format" and isinstance(f.value, ast.Constant) and isinstance(f.value.value, str):
+                out = self._lv(f.value, sc, seen)
+                for a in list(e.args) + [k.value for k in e.keywords]:
+                    out += self._lv(a, sc, seen)
+                return out
             if m in ("encode", "decode") and not self._is_module_name(f.value):
                 codec, errors, _ = self._codec_args(e)
                 op = Op(m, e, None, codec, errors)
@@ -504,9 +554,30 @@ class Flow:
             return [l.with_op(Op("quote", e, fq, None, None, sc)) for l in self._lv(arg0, sc, seen)]
         if fq in UNQUOTE_FQ and arg0 is not None:
             return [l.with_op(Op("unquote", e, fq)) for l in self._lv(arg0, sc, seen)]
-        if fq in ("builtins.list", "builtins.tuple", "builtins.sorted", "builtins.reversed") and arg0 is not None and len(e.args) == 1 and not e.keywords:
+        if fq in ("builtins.list", "builtins.tuple", "builtins.sorted", "builtins.reversed", "builtins.iter", "builtins.set", "builtins.frozenset", "builtins.bytearray", "collections.deque") and arg0 is not None and len(e.args) == 1 and (not e.keywords or fq == "builtins.sorted"):
             # same elements: neither encodes nor decodes
             return self._lv(arg0, sc, seen)
+        conv = codec_call(fq, e)
+        if conv is not None and arg0 is not None:
+            # the constructor / codecs spelling of s.encode(codec, errors) and b.decode(codec, errors)
+            codec, errors, _ = self._codec_args(e, 1)
+            return [l.with_op(Op(conv, e, None, codec, errors)) for l in self._lv(arg0, sc, seen)]
+        if fq in ("builtins.str", "builtins.int", "builtins.format") and arg0 is not None and len(e.args) == 1 and not e.keywords:
+            return self._lv(arg0, sc, seen)  # the text of the value (one-argument str() does not decode)
+        if fq == "builtins.map" and len(e.args) == 2 and not e.keywords and not any(isinstance(a, ast.Starred) for a in e.args):
+            return self._lv(self._map_comp(e).elt, sc, seen)  # map(f, xs) delivers f(x) for x in xs
+        if fq == "builtins.filter" and len(e.args) == 2 and not e.keywords and not isinstance(e.args[1], ast.Starred):
+            return self._lv(e.args[1], sc, seen)  # a selection of the same elements
+        if fq in ("itertools.chain", "itertools.chain.from_iterable") and e.args and not e.keywords:
+            out = []
+            for a in e.args:
+                out += self._lv(a, sc, seen)
+            return out
+        if fq == "builtins.dict" and not e.args:
+            out = []
+            for k in e.keywords:
+                out += self._lv(k.value, sc, seen)
+            return out
         if fq and fq.startswith("werkzeug.") and arg0 is not None and len(e.args) == 1 and not e.keywords:
             mn, _, nm = fq.rpartition(".")
             m_ = self.repo.modules.get(mn)
@@ -515,6 +586,22 @@ class Flow:
         if fq and fq.startswith("werkzeug.") and self.callee_scope(e, sc) is not None:
             return self._inline(e, sc, seen, index)
         return [Leaf("call", e, (), fq or d)]
+
+    def _map_comp(self, e: ast.Call) -> ast.GeneratorExp:
+        """``map(f, xs)`` rewritten as the generator expression ``(f(x) for x in xs)`` it abbreviates (cached, hung
+        into the tree where the call stands so that scopes and comprehension variables resolve as usual)."""
+        cache = self.__dict__.setdefault("_map_comps", {})
+        if id(e) not in cache:
+            var = "__map_item__"
+            arg = ast.Name(id=var, ctx=ast.Load())
+            call = ast.Call(func=e.args[0], args=[arg], keywords=[])
+            gen = ast.comprehension(target=ast.Name(id=var, ctx=ast.Store()), iter=e.args[1], ifs=[], is_async=0)
+            comp = ast.GeneratorExp(elt=call, generators=[gen])
+            for n in (arg, call, comp, gen.target):
+                ast.copy_location(n, e)
+            arg._parent, call._parent, comp._parent = call, comp, getattr(e, "_parent", None)  # type: ignore[attr-defined]
+            cache[id(e)] = (comp, e)  # keep e alive: the key is its id
+        return cache[id(e)][0]
 
     def _is_module_name(self, v: ast.AST) -> bool:
         """receiver of .encode/.decode is an imported module (``codecs.encode``), not a value."""
@@ -531,6 +618,14 @@ class Flow:
         if isinstance(fn, ast.Lambda):
             return self._returned(fn.body, inner, s2, index)
         out: list[Leaf] = []
+        yields = [n for n in walk_no_nested(fn) if isinstance(n, (ast.Yield, ast.YieldFrom))]
+        if yields:
+            # a generator function: what the call delivers (joined, iterated, unpacked) are the yielded values;
+            # which of them and how often is control flow, not origin
+            for y in sorted(yields, key=lambda y: (y.lineno, y.col_offset)):
+                if y.value is not None:
+                    out += self._lv(y.value, inner, s2)
+            return out
         rets = [n for n in walk_no_nested(fn) if isinstance(n, ast.Return)]
         for r in sorted(rets, key=lambda r: r.lineno):
             if r.value is None:
@@ -557,6 +652,97 @@ class Flow:
         if isinstance(v, ast.Call) and self.callee_scope(v, sc) is not None:
             return self._call(v, sc, seen, index)
         return self._lv(v, sc, seen)
+
+
+_GROW_ALL = {"append", "appendleft", "extend", "extendleft", "add", "update"}  # every argument goes in
+_GROW_LAST = {"insert", "setdefault"}  # (position / key, value)
+
+
+def _growths(sc: "Scope") -> dict[str, list[tuple[ast.AST, list[ast.AST]]]]:
+    """name -> [(statement or call, value expressions put into the object)] for the in-place growth steps of a
+    function body (cached on the scope)."""
+    tab = getattr(sc, "_growths", None)
+    if tab is not None:
+        return tab
+    tab = {}
+    for n in walk_no_nested(sc.fn):
+        if isinstance(n, ast.Call) and isinstance(n.func, ast.Attribute) and isinstance(n.func.value, ast.Name):
+            m = n.func.attr
+            vals: list[ast.AST] | None = None
+            if m in _GROW_ALL:
+                vals = list(n.args) + [k.value for k in n.keywords]
+            elif m in _GROW_LAST and n.args:
+                vals = [n.args[-1]]
+            if vals:
+                tab.setdefault(n.func.value.id, []).append((n, vals))
+        elif isinstance(n, (ast.Assign, ast.AugAssign, ast.AnnAssign)) and getattr(n, "value", None) is not None:
+            tgs = n.targets if isinstance(n, ast.Assign) else [n.target]
+            for tg in tgs:
+                if isinstance(tg, ast.Subscript) and isinstance(tg.value, ast.Name):
+                    tab.setdefault(tg.value.id, []).append((n, [n.value]))
+    sc._growths = tab  # type: ignore[attr-defined]
+    return tab
+
+
+def table_values(name: ast.Name, stop: ast.AST | None = None) -> list[str] | None:
+    """the string constants a loop / comprehension variable takes when it runs over a literal table: rows that are
+    constants (``for k in ("A", "B")``) or equally long tuples of which the variable is one position
+    (``for arg, k in (("a", "A"), ("b", "B"))``).  None when the variable is not bound that way."""
+    cur = getattr(name, "_parent", None)
+    while cur is not None:
+        pairs: list[tuple[ast.AST, ast.AST]] = []
+        if isinstance(cur, (ast.ListComp, ast.SetComp, ast.GeneratorExp, ast.DictComp)):
+            pairs = [(g.target, g.iter) for g in cur.generators]
+        elif isinstance(cur, (ast.For, ast.AsyncFor)):
+            pairs = [(cur.target, cur.iter)]
+        for target, it in pairs:
+            pos: int | None = None
+            if isinstance(target, ast.Name) and target.id == name.id:
+                pos = -1
+            elif isinstance(target, (ast.Tuple, ast.List)):
+                pos = next((i for i, x in enumerate(target.elts) if isinstance(x, ast.Name) and x.id == name.id), None)
+                if pos is None and any(isinstance(x, ast.Name) and x.id == name.id for x in ast.walk(target)):
+                    return None
+            if pos is None:
+                continue
+            if isinstance(it, ast.Call) and isinstance(it.func, ast.Attribute) and it.func.attr == "items" and not it.args and isinstance(it.func.value, ast.Dict) and pos in (0, 1):
+                rows: list[ast.AST] = list(it.func.value.keys if pos == 0 else it.func.value.values)  # type: ignore[arg-type]
+                pos = -1
+            elif isinstance(it, (ast.Tuple, ast.List, ast.Set)):
+                rows = list(it.elts)
+            elif isinstance(it, ast.Dict) and pos == -1:
+                rows = list(it.keys)  # type: ignore[arg-type]
+            else:
+                return None
+            out: list[str] = []
+            for r in rows:
+                if pos >= 0:
+                    if not isinstance(r, (ast.Tuple, ast.List)) or len(r.elts) != len(target.elts):  # type: ignore[union-attr]
+                        return None
+                    r = r.elts[pos]
+                if not (isinstance(r, ast.Constant) and isinstance(r.value, str)):
+                    return None
+                out.append(r.value)
+            return out or None
+        if cur is stop or isinstance(cur, (ast.FunctionDef, ast.AsyncFunctionDef, ast.Lambda)):
+            return None
+        cur = getattr(cur, "_parent", None)
+    return None
+
+
+def codec_call(fq: str | None, e: ast.Call) -> str | None:
+    """'encode' / 'decode' when the call is the function spelling of a codec step: ``bytes(s, codec[, errors])``,
+    ``str(b, codec[, errors])``, ``codecs.encode(s[, codec])``, ``codecs.decode(b[, codec])``."""
+    coded = len(e.args) >= 2 or any(k.arg in ("encoding", "errors") for k in e.keywords)
+    if fq in ("builtins.bytes", "builtins.bytearray") and coded:
+        return "encode"
+    if fq == "builtins.str" and coded:
+        return "decode"
+    if fq == "codecs.encode":
+        return "encode"
+    if fq == "codecs.decode":
+        return "decode"
+    return None
 
 
 def peel_tag(call: ast.AST | None, index: int, arity: int | None) -> str | None:
@@ -733,7 +919,7 @@ def _value_parent(cur: ast.AST, flow: Flow) -> tuple[str, ast.AST | None]:
     if isinstance(p, ast.Call) and p.args and p.args[0] is cur:
         d = dotted(p.func)
         fq = flow.resolve(d) if d else None
-        if fq in (ENC_DANCE, DEC_DANCE) or fq in QUOTE_FQ or fq in UNQUOTE_FQ:
+        if fq in (ENC_DANCE, DEC_DANCE) or fq in QUOTE_FQ or fq in UNQUOTE_FQ or codec_call(fq, p) is not None:
             return "up", p
         if isinstance(p.func, ast.Attribute) and p.func.attr == "join":
             return "up", p
